@@ -913,9 +913,36 @@ func (fr *frame) symLoad(p *symptr) value {
 		return load(p.elemT, &p.elems[i])
 	}
 	n := len(p.elems)
-	if n > 4 && k != types.Bool {
+	allConc := true
+	for _, e := range p.elems {
+		if _, isSym := e.(*sym); isSym {
+			allConc = false
+			break
+		}
+	}
+	if !allConc && n > 2 {
+		// symbolic index into symbolic data: split on the index (what un-merged execution
+		// would have done) rather than nest ite terms
+		if fr.i.ex.local != nil {
+			panic(localFail{"symbolic index into symbolic data"})
+		}
+		i := fr.i.ex.concretize(p.idx)
+		return load(p.elemT, &p.elems[i])
+	}
+	if n > 4 {
 		if t, ok := fr.tableTerm(p.elems, k, p.idx); ok {
+			if k == types.Bool {
+				return mkSymBool(t)
+			}
 			return mkSymInt(t, k)
+		}
+		if n > 16 {
+			// large irregular table: fork over the feasible indices instead of building a huge ite
+			if fr.i.ex.local != nil {
+				panic(localFail{"large table lookup"})
+			}
+			i := fr.i.ex.concretize(p.idx)
+			return load(p.elemT, &p.elems[i])
 		}
 	}
 	res := fr.termOf(p.elems[n-1])
